@@ -59,13 +59,26 @@ TCall ==
   /\ Ev.objs = ObjCount(fv') /\ Ev.bad = 0
   /\ l' = l + 1
 
-(* an element's copy/move threw in the middle: containers named in the call may be left with unspecified contents *)
+(* An element's copy/move threw in the middle of the call.  What the property still demands:                    *)
+(*   - a failed *append* (the single-element operations at the end) leaves the container unchanged;              *)
+(*   - a failed positional emplace / erase / element write never changes the size (so no unfilled slot becomes   *)
+(*     visible), the contents of that container are unspecified afterwards;                                      *)
+(*   - range operations, whole-container assignments and constructors: contents unspecified, size <= capacity;   *)
+(*   - always: bystanders untouched, capacity as before (except whole-container assignment), object accounting.  *)
+AppendOps == {"EmplaceBack", "InsertMove", "InsertCopy", "PushBack"}
+InPlaceOps == {"EmplaceAt", "Erase", "SetAt"}
+Involved(c) == \E k \in 1..Len(Ev.who) : Ev.who[k] = c
+DirtyOf(cap) == [st |-> "dirty", cap |-> cap, size |-> 0, slots |-> [k \in 1..cap |-> J], mf |-> FALSE]
 TThrew ==
   /\ l <= TraceLen /\ Ev.e # "Reset" /\ Ev.out = "threw"
-  /\ fv' = [c \in C |-> IF \E k \in 1..Len(Ev.who) : Ev.who[k] = c THEN FromLog(Ev.state)[c] ELSE fv[c]]   \* bystanders untouched
-  /\ SameAbs(fv', Ev.state)
+  /\ IF Ev.e \in AppendOps
+     THEN /\ fv' = fv /\ SameAbs(fv, Ev.state)
+     ELSE /\ fv' = [c \in C |-> IF ~Involved(c) THEN fv[c]
+                                ELSE IF Ev.state[c].st = "absent" THEN Absent ELSE DirtyOf(Ev.state[c].cap)]
+          /\ \A c \in C : Involved(c) /\ Ev.state[c].st # "absent" => Ev.state[c].size <= Ev.state[c].cap
+          /\ (Ev.e \in InPlaceOps) => \A c \in C : Involved(c) /\ fv[c].st = "live" => Ev.state[c].size = fv[c].size
+          /\ \A c \in C : ~Involved(c) => (Ev.state[c].st = "absent") = (fv[c].st = "absent")
   /\ \A c \in C : fv[c].st # "absent" /\ fv'[c].st # "absent" /\ Ev.e \notin {"CopyAssign", "MoveAssign", "AssignList"} => fv'[c].cap = fv[c].cap
-  /\ \A c \in C : Ev.state[c].st # "absent" => Ev.state[c].size <= Ev.state[c].cap
   /\ Ev.objs = ObjCount(fv') /\ Ev.bad = 0
   /\ last' = [op |-> Ev.e, args |-> Ev.args, out |-> "threw", val |-> <<>>, alt |-> <<>>]
   /\ l' = l + 1
